@@ -34,6 +34,8 @@ pub struct Outcome {
     pub sample: Option<J>,
     /// harness/oracle defect detected (never a verdict about zlib-rs): worker exits 2
     pub internal: Option<String>,
+    /// digest of the observable behaviour of this case (compared across build variants by the driver)
+    pub digest: Option<u64>,
 }
 
 impl Outcome {
@@ -103,12 +105,16 @@ pub struct Stats {
     pub known: BTreeMap<String, u64>,
     pub phase_info: Vec<J>,
     pub exhaustive_phases: Vec<String>,
+    pub digests: Vec<u64>,
 }
 
 impl Stats {
     fn absorb(&mut self, o: &mut Outcome) {
         self.evals += o.evals.max(1);
         self.cases += 1;
+        if let Some(d) = o.digest {
+            self.digests.push(d);
+        }
         if let Some(fp) = o.nontrivial {
             let new = self.fps.insert(fp);
             if new && self.samples.len() < 6 {
@@ -185,6 +191,8 @@ pub struct RunResult {
 }
 
 pub fn run_property(prop: &Property, ctx: &mut Ctx, journal: &Journal, only_phase: Option<usize>) -> RunResult {
+    let dump_case: Option<(usize, String)> = std::env::var("VERIF_DUMP_CASE").ok().and_then(|s| { let mut it = s.splitn(2, ':'); Some((it.next()?.parse().ok()?, it.next()?.to_string())) });
+    let case_counter = RefCell::new(0usize);
     let mut stats = Stats::default();
     let mut failure: Option<(usize, Vec<u8>, Fail)> = None;
     for (pi, ph) in prop.phases.iter().enumerate() {
@@ -221,6 +229,14 @@ pub fn run_property(prop: &Property, ctx: &mut Ctx, journal: &Journal, only_phas
                 let strat = proptest::collection::vec(any::<u8>(), 0..=max_tape);
                 let res = runner.run(&strat, |tape| {
                     journal.record(pi, &tape);
+                    if let Some((k, path)) = &dump_case {
+                        let mut c = case_counter.borrow_mut();
+                        if *c == *k {
+                            write_replay(path, prop.id, pi, &tape);
+                            std::process::exit(0);
+                        }
+                        *c += 1;
+                    }
                     let o = f(&tape, ctx);
                     if let Some(m) = &o.internal {
                         internal_error(m);
@@ -329,6 +345,13 @@ pub fn write_result(path: &str, prop: &Property, ctx: &Ctx, rr: &RunResult, repl
         fb.extend_from_slice(&v.to_le_bytes());
     }
     std::fs::write(&fp_path, fb).expect("fp file");
+    if !st.digests.is_empty() {
+        let mut db = Vec::with_capacity(st.digests.len() * 8);
+        for v in &st.digests {
+            db.extend_from_slice(&v.to_le_bytes());
+        }
+        std::fs::write(format!("{}.dig", path), db).expect("digest file");
+    }
     let mut j = J::obj()
         .set("property_id", J::s(prop.id))
         .set("variant", J::s(ctx.variant.clone()))
